@@ -1167,6 +1167,9 @@ def main():
     mark = time.time()
     props_ok = chk.coq_props()
     phase['coq_props'] = round(time.time() - mark, 1)
+    # tie: the loop structure of _verify_bib/_verify_bcb and verify_bib/verify_bcb, regenerated into Gen/BpsecLoops.v
+    (tr_ok, tr_err) = chk.translate_ok('bpsecloops')
+    chk.obligation('translator:bpsecloops', tr_ok, tr_err)
     mark = time.time()
 
     cases = [('corpus:' + name, case) for (name, case) in load_corpus()]
@@ -1274,7 +1277,7 @@ def main():
         chk.obligation('correspondence:recv_bundle-vs-BpSecChain.recv_sec', False, 'model evaluation failed: ' + model_err)
 
     # a broken proof or correspondence: search for a failing input with the oracle at 10x the budget
-    if (not props_ok or disagree or model is None) and not chk.violations:
+    if (not props_ok or not tr_ok or disagree or model is None) and not chk.violations:
         for _ in range(10 * n_random if chk.quick() else n_random):
             case = random_case(chk.rng)
             try:
